@@ -3,7 +3,7 @@
    OCaml types; Z, N, positive and Flocq's binary_float stay Coq datatypes. *)
 From Coq Require Extraction.
 From Coq Require Import ExtrOcamlBasic.
-From F1 Require Import Base.Prelude Base.F64 Model.Verdict Model.Distribution Model.Staged Model.Jitter Model.Progress Model.TestingT Model.Metrics Base.GoStr Base.GoTime Model.RateParse Model.ConfigFile Base.Fmt Model.Views Model.Gaussian Model.Runner Model.Pool Model.Ticker.
+From F1 Require Import Base.Prelude Base.F64 Model.Verdict Model.Distribution Model.Staged Model.Jitter Model.Progress Model.TestingT Model.Metrics Base.GoStr Base.GoTime Model.RateParse Model.ConfigFile Base.Fmt Model.Views Model.Gaussian Model.Runner Model.Pool Model.Ticker Model.RunLife.
 
 Extraction Language OCaml.
 Extraction "model.ml"
@@ -21,4 +21,5 @@ Extraction "model.ml"
   gauss_run gauss_ok carry_run weight_index
   runner_trace_ok rexec rinit
   c02_ok c03_ok c04_ok pexec pinit pterminal
-  c09_ok worker_actions.
+  c09_ok worker_actions
+  c05_ok lexec linit wedged.
